@@ -74,6 +74,9 @@ def run(ctx):
         ctx.distinct(d)
         if p.enc.tag == "ok" or p.parse.tag == "ok":
             ctx.violation("chain-id-too-large-refused", dict(op="Transaction (legacy)", chain_id=c, document=short(d, 200)), "refused", dict(encode=p.enc.tag, parse=p.parse.tag))
+    # ... and every fourth document with some characters of its keys and string values spelled as \\uXXXX escapes
+    from gen.util import escape_json_strings
+    docs = [escape_json_strings(d, rng) if i % 4 == 2 else d for i, d in enumerate(docs)]
     probes = txprobe.run_docs(ctx, docs, "C06", clause="tx-vs-model")
     for t, d, p in zip(txs, docs, probes):
         case = dict(op="Transaction::encode / signing_message", kind=t.kind, document=short(d, 300))
